@@ -101,6 +101,94 @@ func (h *verifC15) checkInvariants(when string) {
 	_ = when
 }
 
+// classify evaluates the predicate of the known-finding class orphan-forest-not-merged before node n is
+// delivered: n is the parent of an orphan head and, in addition, either the parent of a second head or
+// the child of a node stored in an orphan subtree (insertOrphan links it against the first head only).
+// A proposal that merely joins an orphan subtree under its parent is handled correctly and is NOT in the class.
+func (h *verifC15) classify(n *ProposalNode) {
+	heads, parentInOrphan := 0, false
+	for e := h.t.OrphanList.Front(); e != nil; e = e.Next() {
+		o := e.Value.(*ProposalNode)
+		if DFSQuery(o, n.In.GetParentProposalId()) != nil {
+			parentInOrphan = true
+		}
+		if string(o.In.GetParentProposalId()) == string(n.In.GetProposalId()) {
+			heads++
+		}
+	}
+	if heads >= 1 && parentInOrphan {
+		h.chainedOrphans = true
+	}
+	if heads >= 2 && h.t.DFSQueryNode(n.In.GetParentProposalId()) == nil {
+		h.chainedOrphans = true
+	}
+}
+
+// verifC15Stale: a directed history with arbitrary views: main chain m1 <- m2 under the root, two orphan
+// heads S and A (unknown parents) filed in either order, the root committed forward so that S may
+// have become stale, then a child of A and finally A's missing parent (a child of the new root) arrive.
+// Every accepted proposal must then be stored in the tree or be a genuine orphan.
+func verifC15Stale() {
+	h := &verifC15{P: 6}
+	initQC := &QuorumCert{VoteInfo: &VoteInfo{ProposalId: []byte{0}, ProposalView: 0}, LedgerCommitInfo: &LedgerCommitInfo{CommitStateId: []byte{0}}}
+	root := &ProposalNode{In: initQC}
+	h.t = &QCPendingTree{Genesis: root, Root: root, HighQC: root, CommitQC: root, OrphanList: list.New(), OrphanMap: make(map[string]bool), Log: vlog.Nop{}}
+	mk := func(id, parent byte, view, pview int64) *ProposalNode {
+		return &ProposalNode{In: &QuorumCert{VoteInfo: &VoteInfo{ProposalId: []byte{id}, ProposalView: view, ParentId: []byte{parent}, ParentView: pview}}}
+	}
+	var mv [6]int64
+	for i := 1; i <= 5; i++ {
+		mv[i] = vrt.Int("v-m"+string([]byte{byte('0' + i)}), int64(i), int64(2*i))
+		vrt.Assume(mv[i] > mv[i-1])
+	}
+	vs := vrt.Int("v-S", 1, 12)
+	vpa := vrt.Int("v-PA", 6, 14)
+	va := vrt.Int("v-A", 7, 16)
+	vc := vrt.Int("v-C", 8, 18)
+	vrt.Assume(mv[5] < vpa && vpa < va && va < vc)
+	S := mk(6, 90, vs, vs-1)   // parent 90 never arrives
+	A := mk(7, 8, va, vpa)     // parent PA (id 8) arrives last
+	C := mk(9, 7, vc, va)      // child of A
+	PA := mk(8, 5, vpa, mv[5]) // child of m5
+	deliver := func(n *ProposalNode) {
+		h.classify(n)
+		vrt.Assert(h.t.updateQcStatus(n) == nil, "delivery-accepted")
+	}
+	for i := 1; i <= 5; i++ {
+		deliver(mk(byte(i), byte(i-1), mv[i], mv[i-1]))
+	}
+	if vrt.Choice("orphan-order", 2) == 0 {
+		deliver(S)
+		deliver(A)
+	} else {
+		deliver(A)
+		deliver(S)
+	}
+	h.t.updateHighQC([]byte{5})
+	h.t.updateCommit([]byte{byte(4 + vrt.Choice("commit", 2))}) // the root moves to m1 or m2
+	vrt.Cover("root-moved", h.t.Root != root)
+	vrt.Cover("stale-orphan-head", vs <= h.t.Root.In.GetProposalView())
+	deliver(C)
+	deliver(PA)
+	// every delivered proposal above the root's view is stored: under the root, or as an orphan whose parent is missing
+	h.checkInvariants("end")
+	stored := func(id byte) bool {
+		if h.t.DFSQueryNode([]byte{id}) != nil {
+			return true
+		}
+		for e := h.t.OrphanList.Front(); e != nil; e = e.Next() {
+			if DFSQuery(e.Value.(*ProposalNode), []byte{id}) != nil {
+				return true
+			}
+		}
+		return false
+	}
+	vrt.Assert(h.t.DFSQueryNode([]byte{8}) != nil, "parent-joins-the-tree")
+	vrt.Known("orphan-forest-not-merged", h.chainedOrphans)
+	vrt.Assert(h.t.DFSQueryNode([]byte{7}) != nil && h.t.DFSQueryNode([]byte{9}) != nil, "orphan-subtree-adopted-with-its-children")
+	_ = stored
+}
+
 func verifC15Run(P, S int) { verifC15Drive(P, S, false) }
 
 // verifC15Deep: all P proposals are delivered first, in an arbitrary order,
@@ -176,19 +264,7 @@ func verifC15Drive(P, S int, deliverAllFirst bool) {
 		case 0: // a proposal arrives (any order, duplicates allowed)
 			n := h.node[i]
 			// class predicate: is the parent of this proposal currently stored as an orphan?
-			heads := 0
-			for e := h.t.OrphanList.Front(); e != nil; e = e.Next() {
-				o := e.Value.(*ProposalNode)
-				if DFSQuery(o, n.In.GetParentProposalId()) != nil {
-					h.chainedOrphans = true
-				}
-				if string(o.In.GetParentProposalId()) == string(n.In.GetProposalId()) {
-					heads++
-				}
-			}
-			if heads >= 2 && h.t.DFSQueryNode(n.In.GetParentProposalId()) == nil {
-				h.chainedOrphans = true
-			}
+			h.classify(n)
 			if h.sent[i] {
 				// a duplicate delivery is a fresh object with the same content
 				n = &ProposalNode{In: n.In}
@@ -232,7 +308,8 @@ func verifC15Drive(P, S int, deliverAllFirst bool) {
 	}
 }
 
-func VerifC15Quick()    { verifC15Run(3, 3) }
-func VerifC15Thorough() { verifC15Run(4, 4) }
+func VerifC15Quick()     { verifC15Run(3, 3) }
+func VerifC15Thorough()  { verifC15Run(4, 4) }
 func VerifC15DeepQuick() { verifC15Deep(4, 1) }
+func VerifC15Stale()     { verifC15Stale() }
 func VerifC15Deep()      { verifC15Deep(5, 2) }
